@@ -10,20 +10,26 @@ import Heph.Proofs.TypesFlat
 # C06 — the subtyping judgement is sound; exactness fails (non-transitivity witness)
 
 Model: `Heph.Ty.isSub` / `isSubtype` (`Model/Types.lean`, `types.py`).  Specification:
-`SubT` / `ContL` / `Cont` and the decidable well-formedness `wf` (`Spec/Subtyping.lean`).
+`SubT U` / `ContL U` / `Cont U` relative to a universe `U` of types (class table), `ClosedU`,
+`Consistent`, and the decidable well-formedness `wf` (`Spec/Subtyping.lean`).
 
 * `isSub_sound` (+ `nominal_sound`, `containedL_sound`, `contained_sound`, `isSubtype_sound`,
-  `assignable_sound`): every positive answer, at every fuel, is derivable in `SubT`.
+  `isSubtype_sound_in`, `assignable_sound`): every positive answer, at every fuel, is derivable
+  in `SubT U` for every universe `U` containing the two types.
 * `nothing_bot`, `bottomBuiltin_bot`: the bottom types are below everything.
 * `isSub_fuel`, `isSubtype_fuel`: the fuel of `isSubtype` never runs out on regular types
-  (`reg`), and `isSubtype_fuel_needs_reg`: on a non-regular type the fuel does run out (the
-  Python code does not terminate there).
-* `tconIsSub_sound`: a positive answer for a bare type constructor comes from a matched
-  element of its supertype closure.
-* `isSub_trans_counterexample`, `isSub_exact_counterexample`: the code's judgement is not
-  transitive, hence not exact, on ground types (finding 6).
-* `isSub_refl_partial`: reflexivity for regular built-ins, classifiers, constructors,
-  instantiations.
+  (`reg`); `isSubtype_fuel_counterexample`: on a non-regular type it does (the Python code
+  does not terminate there); `isSub_fuel_mono`, `isSub_fuel_indep`, `isSub_eq_isSubtype`: the
+  answer does not depend on the fuel.
+* `tconIsSub_sound`, `tconIsSub_subT`: a positive answer for a bare type constructor comes from
+  a matched element of its supertype closure.
+* `isSub_trans_counterexample`, `isSub_trans_false`, `isSub_exact_counterexample`: the code's
+  judgement is not transitive, hence not exact, on ground types (finding 6).
+* `isSub_exact_partial`, `isSub_trans_partial`: exactness and transitivity for receivers built
+  from built-ins and non-generic classes, in a consistent universe; `subT_nontrivial`,
+  `subT_trivial_without_universe`: why the relation carries a universe.
+* `isSub_refl_partial`, `isSubtype_refl`: reflexivity for regular built-ins, classifiers,
+  constructors, instantiations.
 -/
 namespace Heph.Props.C06
 open Heph Heph.Ty
